@@ -220,3 +220,91 @@ Proof.
         -- lia.
         -- destruct (N.eq_dec (val v) 0); [left; assumption | right; lia].
 Qed.
+
+(* ---- fuel: 40 >= the bit length of a u32 exponent, so `u128_pow` never runs out of fuel *)
+Lemma half_lt_pow e f : e < 2 ^ N.of_nat (S f) -> e / 2 < 2 ^ N.of_nat f.
+Proof.
+  intros H. apply N.div_lt_upper_bound; [discriminate|].
+  rewrite Nat2N.inj_succ, N.pow_succ_r' in H. exact H.
+Qed.
+
+Lemma pow_loop1_fuel : forall fuel value e, wf value -> 1 <= e -> e < 2 ^ 64 -> e < 2 ^ N.of_nat fuel ->
+  pow_loop1 df fuel value e <> Oof.
+Proof.
+  induction fuel as [| fuel IH]; intros value e Hv He Hlt Hf.
+  - change (2 ^ N.of_nat 0) with 1 in Hf. lia.
+  - cbn [pow_loop1]. rewrite land1_mod2.
+    destruct (e mod 2 =? 0) eqn:E; [|discriminate].
+    apply N.eqb_eq in E.
+    pose proof (pow_mul_df value value Hv Hv) as PM.
+    destruct (pow_mul df value value) as [[v2 |] | c | p |] eqn:Em; cbn [bind]; try contradiction; try discriminate.
+    destruct PM as [PL PE]. rewrite srl1 by exact Hlt.
+    apply IH.
+    + subst v2. apply wf_split. exact PL.
+    + apply N.div_le_lower_bound; [discriminate|]. pose proof (N.div_mod e 2 ltac:(discriminate)). lia.
+    + pose proof (div_le_self e 2 ltac:(lia)). lia.
+    + apply half_lt_pow. exact Hf.
+Qed.
+
+Lemma pow_loop2_fuel : forall fuel value acc e, wf value -> wf acc -> 1 <= e -> e < 2 ^ 64 ->
+  e < 2 ^ N.of_nat fuel -> pow_loop2 df fuel value acc e <> Oof.
+Proof.
+  induction fuel as [| fuel IH]; intros value acc e Hv Hacc He Hlt Hf.
+  - change (2 ^ N.of_nat 0) with 1 in Hf. lia.
+  - cbn [pow_loop2]. destruct (1 <? e) eqn:E1; [|discriminate].
+    apply N.ltb_lt in E1. rewrite srl1 by exact Hlt. rewrite land1_mod2.
+    assert (E2 : 1 <= e / 2) by (apply N.div_le_lower_bound; [discriminate|]; lia).
+    assert (L2 : e / 2 < 2 ^ 64) by (pose proof (div_le_self e 2 ltac:(lia)); lia).
+    pose proof (pow_mul_df value value Hv Hv) as PM.
+    destruct (pow_mul df value value) as [[v2 |] | c | p |] eqn:Em; cbn [bind]; try contradiction; try discriminate.
+    destruct PM as [PL PE].
+    assert (W2 : wf v2) by (subst v2; apply wf_split; exact PL).
+    destruct (e / 2 mod 2 =? 1) eqn:Eo.
+    + pose proof (pow_mul_df acc v2 Hacc W2) as PM2.
+      destruct (pow_mul df acc v2) as [[a2 |] | c | p |] eqn:Em2; cbn [bind]; try contradiction; try discriminate.
+      destruct PM2 as [PL2 PE2]. apply IH; try assumption.
+      * subst a2. apply wf_split. exact PL2.
+      * apply half_lt_pow. exact Hf.
+    + apply IH; try assumption. apply half_lt_pow. exact Hf.
+Qed.
+
+Lemma pow_loop1_exp_le : forall fuel value e v' e', pow_loop1 df fuel value e = Ret (PVal v', e') -> e < 2 ^ 64 -> e' <= e.
+Proof.
+  induction fuel as [| fuel IH]; intros value e v' e' H Hlt; [discriminate|].
+  cbn [pow_loop1] in H. destruct (N.land e 1 =? 0).
+  - destruct (pow_mul df value value) as [[v2 |] | c | p |]; cbn [bind] in H; try discriminate.
+    rewrite srl1 in H by exact Hlt.
+    pose proof (div_le_self e 2 ltac:(lia)).
+    specialize (IH v2 (e / 2) v' e' H ltac:(lia)). lia.
+  - injection H as _ H. lia.
+Qed.
+
+Lemma u128_pow_total a e : wf a -> e < 2 ^ 32 -> u128_pow df a e <> Oof.
+Proof.
+  intros Ha He. unfold u128_pow, u128_pow_fuel.
+  destruct (e =? 0) eqn:E0; [discriminate|]. apply N.eqb_neq in E0.
+  destruct (e =? 1) eqn:E1; [discriminate|]. apply N.eqb_neq in E1.
+  assert (L64 : e < 2 ^ 64) by (change (2 ^ 32) with 4294967296 in He; change (2 ^ 64) with 18446744073709551616; lia).
+  assert (L40 : e < 2 ^ N.of_nat 40) by (change (2 ^ 32) with 4294967296 in He; change (2 ^ N.of_nat 40) with 1099511627776; lia).
+  pose proof (pow_loop1_fuel 40 a e Ha ltac:(lia) L64 L40) as F1.
+  pose proof (pow_loop1_correct 40 a e Ha ltac:(lia) L64) as P1.
+  destruct (pow_loop1 df 40 a e) as [[[v |] e'] | c | p |] eqn:El; cbn [bind]; try contradiction; try discriminate.
+  destruct P1 as (Wv & Pv & Odd & Le').
+  destruct (e' =? 1); [discriminate|].
+  pose proof (pow_loop1_exp_le 40 a e v e' El L64) as Lee.
+  apply pow_loop2_fuel; try assumption.
+  - pose proof (N.mod_lt e' 2 ltac:(discriminate)). destruct (N.eq_dec e' 0) as [Z | NZ]; [rewrite Z in Odd; discriminate | lia].
+  - lia.
+Qed.
+
+Lemma u128_pow_correct a e : wf a -> e < 2 ^ 32 ->
+  match u128_pow df a e with
+  | Ret r => val a ^ e < 2 ^ 128 /\ r = split (val a ^ e)
+  | Rev _ | Vmp _ => 2 ^ 128 <= val a ^ e
+  | Oof => False
+  end.
+Proof.
+  intros Ha He. pose proof (u128_pow_fuel_correct 40 a e Ha He) as Y.
+  pose proof (u128_pow_total a e Ha He) as T. unfold u128_pow in *.
+  destruct (u128_pow_fuel 40 df a e); cbn [yields] in Y; try exact Y. congruence.
+Qed.
